@@ -397,11 +397,12 @@ pub fn check_flavour(f: usize, got: &Pairs, model: &BTreeMap<Vec<u8>, Vec<u8>>) 
 }
 
 /// the read-only calls of C15; each returns a complaint only if the call itself misbehaves
-pub const RO_CALLS: [&str; 24] = [
+pub const RO_CALLS: [&str; 26] = [
     "get(present)", "get(absent)", "includes_key(present)", "includes_key(absent)", "len", "is_empty", "bulk_get",
     "iter(full)", "iter_mut(full)", "keys(full)", "values(full)", "into_iter(full)", "iter(partial)", "keys(partial)",
     "count_of_free_key_piece", "count_of_free_value_piece", "key_piece_size_stats", "value_piece_size_stats",
     "key_length_stats", "value_length_stats", "htx_filling_rate_per_mill", "read_fill_buffer", "flush", "sync_all+sync_data",
+    "get_string(present+absent)", "bulk_get_string",
 ];
 
 pub fn ro_call<T: Kt>(cfg: &ACfg, m: &mut FileDbMap<T>, db: &abyssiniandb::filedb::FileDb, call: usize, model: &BTreeMap<Vec<u8>, Vec<u8>>) -> Option<String> {
@@ -456,11 +457,22 @@ pub fn ro_call<T: Kt>(cfg: &ACfg, m: &mut FileDbMap<T>, db: &abyssiniandb::filed
         20 => guard(|| m.htx_filling_rate_per_mill().map(|_| ())),
         21 => guard(|| m.read_fill_buffer()),
         22 => guard(|| m.flush()),
-        _ => guard(|| {
+        23 => guard(|| {
             m.sync_all()?;
             m.sync_data()?;
             db.sync_all()?;
             db.sync_data()
+        }),
+        24 => guard(|| {
+            if let Some(k) = present {
+                let _ = m.get_string(&k[..])?;
+            }
+            m.get_string(&absent[..]).map(|_| ())
+        }),
+        _ => guard(|| {
+            let mut ks: Vec<&[u8]> = cfg.keys.iter().map(|k| &k[..]).collect();
+            ks.push(&absent[..]);
+            m.bulk_get_string(&ks).map(|_| ())
         }),
     };
     r.failed()
